@@ -5,8 +5,10 @@ package harness
 import (
 	"fmt"
 	"math/rand"
+	"net"
 	"strings"
 	"sync"
+	"sync/atomic"
 	"testing"
 	"time"
 
@@ -357,13 +359,23 @@ func runC19Relay(run *Run, seed int64, rng *rand.Rand) (out []*c01Result) {
 	defer rig.Close()
 	R := rig.AddPeer("R", "10.9.1.1", 7946) // requester
 	T := rig.AddPeer("T", "10.9.2.1", 7946) // target
+	var sendErr atomic.Bool
+	rig.V.EP.WriteErr = func(buf []byte, to memberlist.Address) error {
+		if sendErr.Load() && to.Addr == T.EP.Addr {
+			return &net.OpError{Op: "write", Net: "udp", Err: fmt.Errorf("sendto: no buffer space available")}
+		}
+		return nil
+	}
 	pending := map[uint32]bool{}
 	usedSeq := map[uint32]int{}
 	for k := 0; k < 60; k++ {
 		r := uint32(5000 + k)
 		wantNack := rng.Intn(2) == 0
-		mode := []string{"ack-early", "ack-late", "no-ack", "ack-wrong-seq", "ack-from-other"}[rng.Intn(5)]
+		mode := []string{"ack-early", "ack-late", "no-ack", "ack-wrong-seq", "ack-from-other", "send-error"}[rng.Intn(6)]
 		nT, nR := len(T.Received()), len(R.Received())
+		// send-error: the relay's own ping cannot be sent (the local stack refuses the datagram); the
+		// requester must still get its nack
+		sendErr.Store(mode == "send-error")
 		R.Send(Enc(TIndirectPing, &WIndirectPing{SeqNo: r, Target: []byte(T.EP.IP), Port: 7946, Node: "T", Nack: wantNack, SourceAddr: []byte(R.EP.IP), SourcePort: 7946, SourceNode: "R"}))
 		Settle(2 * time.Millisecond)
 		// the forwarded ping
@@ -385,6 +397,38 @@ func runC19Relay(run *Run, seed int64, rng *rand.Rand) (out []*c01Result) {
 		}
 		run.Eval(1)
 		run.Cell("relay", mode, fmt.Sprintf("nack=%v", wantNack))
+		if mode == "send-error" {
+			sendErr.Store(false)
+			if found != 0 {
+				fail("harness/send-error", "%d pings reached the target although the send was refused", found)
+				return
+			}
+			Settle(700 * time.Millisecond)
+			acks, nacks := 0, 0
+			for _, p := range R.Received()[nR:] {
+				for _, l := range p.Info.Leaves {
+					switch l.Type {
+					case TAck:
+						acks++
+					case TNack:
+						var a WNack
+						if mpDecode(l.Body, &a) == nil && a.SeqNo != r {
+							fail("nack-wrong-seq", "nack carries %d, the requester's number is %d", a.SeqNo, r)
+						}
+						nacks++
+					}
+				}
+			}
+			wantNacks := 0
+			if wantNack {
+				wantNacks = 1
+			}
+			if acks != 0 || nacks != wantNacks {
+				fail("relay-outcome/send-error", "request r=%d nack=%v, the relay's ping could not be sent: requester got %d ack(s) and %d nack(s), expected 0 and %d", r, wantNack, acks, nacks, wantNacks)
+				return
+			}
+			continue
+		}
 		if found != 1 {
 			fail("forward-count", "an indirect-ping request produced %d pings to the target", found)
 			return
@@ -537,7 +581,7 @@ func TestC19(t *testing.T) {
 		}
 	}
 	if !run.Replaying() {
-		run.Require("relay|ack-early|nack=true", "relay|ack-late|nack=true", "relay|no-ack|nack=true", "relay|no-ack|nack=false", "relay|ack-wrong-seq|nack=true", "relay|ack-from-other|nack=false")
+		run.Require("relay|ack-early|nack=true", "relay|ack-late|nack=true", "relay|no-ack|nack=true", "relay|no-ack|nack=false", "relay|ack-wrong-seq|nack=true", "relay|ack-from-other|nack=false", "relay|send-error|nack=true", "relay|send-error|nack=false")
 	}
 	run.Complete()
 	if run.Violations() > 0 {
